@@ -36,6 +36,7 @@
 # define _h_PS_LIST
 
 #include "osdep-types.h"
+#include <stddef.h> /* offsetof */
 
 /********************************** Defines ***********************************/
 /*
@@ -136,7 +137,7 @@ typedef struct _DLListEntry
  */
 # define DLListGetContainer(__pDLList, __ContainerType, __DLListFieldName)  \
     ((__ContainerType *) ((char *) (__pDLList) -  \
-                          (long) (&((__ContainerType *) 0)->__DLListFieldName)))
+                          offsetof(__ContainerType, __DLListFieldName)))
 
 /*
     Detaches first list item after the head and returns a pointer to it.
